@@ -191,7 +191,7 @@ def lifted_big(ctx, s, r):
     from .. import lifted as lf
     ev = next(e for e in s["events"] if e["op"] == "Cdist")
     A, B = s["A"], s["B"]
-    ba, bb = [(1100, 60), (50, 1300), (1030, 1030)][r % 3]
+    ba, bb = [(lf.boundary_size(r), 60), (50, lf.boundary_size(r + 2)), (1025, 1025)][r % 3]
     ia, ib = lf.index_map(ctx.rng, len(A), ba), lf.index_map(ctx.rng, len(B), bb)
     want = lf.lift_matrix(ev["D"], ia, ib)
     m = make_metric(s["cls"], s["wts"])
